@@ -19,7 +19,7 @@ from typing import Any, Dict, List
 from .core import VERIF, Ctx, Report
 from .model import AnalysisError
 
-CLAIMED = ["C01", "C02", "C03", "C04", "C05", "C06", "C07", "C08", "C09", "C10", "C11", "C12", "C15", "C16", "C17", "C19", "C20"]
+CLAIMED = ["C01", "C02", "C03", "C04", "C05", "C06", "C07", "C08", "C09", "C10", "C11", "C12", "C13", "C15", "C16", "C17", "C19", "C20"]
 
 
 def load_known() -> Dict[str, Any]:
